@@ -77,16 +77,19 @@ RefCombine(nv, nw) == [ts |-> nv.ts \cup nw.ts, exp |-> nv.exp + nw.exp]
 (*  sharers = <<[kind, before, after]>>  every object sharing storage with *)
 (*            the receiver (a copy, a virtual view, a second owner ...)    *)
 (*  arrays  = <<[before, after]>>  raw bytes of every pre-existing array   *)
-(*  plain   = [exc, st, dq]      result of the plain spelling: exception   *)
-(*            name or "", structural fingerprint, numeric distance to      *)
-(*            itself (0)                                                   *)
+(*  plain   = [exc, st, stw, dq] result of the plain spelling: exception    *)
+(*            name or "", structural fingerprint (st: tensor by tensor,     *)
+(*            stw: what survives a change of gauge), distance to itself (0) *)
 (*  inpl    = [exc, st, dq, self, orig, arrays]  result of the in-place    *)
 (*            spelling on a copy (dq: distance to the plain result),       *)
 (*            whether it returned its receiver, and the original + its     *)
 (*            arrays around that call                                      *)
-(*  perm    = <<[exc, st, dq, same_in]>>  plain spelling on receivers      *)
-(*            whose tensors store their axes in another order              *)
-(*  randomised, docself, hasinpl : flags of the recipe                     *)
+(*  perm    = <<[exc, st, dq, same_in, level]>>  plain spelling on         *)
+(*            receivers whose tensors store their axes in another order;   *)
+(*            level "tensor": compared tensor by tensor; "denotation":     *)
+(*            (only for results with a gauge freedom) same class / outer   *)
+(*            labels / tags and same contracted value                      *)
+(*  randomised, docself, hasinpl, gauge : flags of the recipe              *)
 
 Untouched(p)     == p.before = p.after
 AllUntouched(ps) == \A p \in Range(ps) : Untouched(p)
@@ -102,9 +105,13 @@ PlainIsInplaceOnCopy(r) == r.hasinpl => Agree(r.plain, r.inpl)
 \* the in-place spelling on a copy never reaches the original through the arrays they share
 CopyIsolated(r)     == r.hasinpl => (Untouched(r.inpl.orig) /\ AllUntouched(r.inpl.arrays))
 InplaceReturnsSelf(r) == (r.hasinpl /\ r.docself /\ r.inpl.exc = "") => r.inpl.self
+AgreePerm(r, p)     == /\ r.plain.exc = p.exc
+                       /\ p.exc = "" =>
+                            /\ p.dq = 0
+                            /\ IF p.level = "denotation" THEN r.gauge /\ p.st = r.plain.stw ELSE p.st = r.plain.st
 PermInvariant(r)    == \A p \in Range(r.perm) :
-                          /\ p.same_in                      \* the permuted receiver has the same labelled content
-                          /\ r.randomised \/ Agree(r.plain, p)
+                          /\ p.same_in                      \* the re-stored receiver has the same labelled content
+                          /\ r.randomised \/ AgreePerm(r, p)
 
 CallClauses(r) ==
   << <<"PlainPure", PlainPure(r)>>,
